@@ -6,6 +6,7 @@ import (
 	"context"
 	"encoding/json"
 	"fmt"
+	"math/rand/v2"
 	"reflect"
 	"sort"
 	"strings"
@@ -203,129 +204,13 @@ func TestVerifC13Load(t *testing.T) {
 	if err != nil {
 		t.Fatal(err)
 	}
-	// toggleable settings of every type: booleans and numbers of the factory default's effective configuration
-	type toggle struct {
-		path string
-		v    any
-	}
-	toggles := map[string][]toggle{}
-	defFlat := map[string]map[string]any{}    // effective factory default, flattened
-	leafPaths := map[string]map[string]bool{} // schema leaf positions
-	kinds := make([]string, 0, len(c13Catalog))
-	for k := range c13Catalog {
-		kinds = append(kinds, k)
-	}
-	sort.Strings(kinds)
-	for _, k := range kinds {
-		st := strings.SplitN(k, "/", 2)
-		f := c13Factory(factories, st[0], st[1])
-		if f == nil {
-			t.Fatalf("no factory for %s", k)
-		}
-		eff, err := c13EffectiveOf(f.CreateDefaultConfig())
-		if err != nil {
-			continue
-		}
-		flat := map[string]any{}
-		c13Flatten(eff, "", flat)
-		defFlat[k] = flat
-		leafPaths[k] = map[string]bool{}
-		c13LeafPaths(reflect.TypeOf(f.CreateDefaultConfig()), nil, 0, leafPaths[k])
-		paths := make([]string, 0, len(flat))
-		for p := range flat {
-			paths = append(paths, p)
-		}
-		sort.Strings(paths)
-		for _, p := range paths {
-			if strings.HasSuffix(p, "blocking") {
-				continue // deprecated alias of block_on_overflow
-			}
-			rv := reflect.ValueOf(flat[p])
-			if !rv.IsValid() {
-				continue
-			}
-			switch rv.Kind() {
-			case reflect.Bool:
-				toggles[k] = append(toggles[k], toggle{p, !rv.Bool()})
-			case reflect.Int, reflect.Int32, reflect.Int64:
-				toggles[k] = append(toggles[k], toggle{p, rv.Int() + 1})
-			case reflect.Uint, reflect.Uint32, reflect.Uint64:
-				toggles[k] = append(toggles[k], toggle{p, rv.Uint() + 1})
-			case reflect.Float64, reflect.Float32:
-				toggles[k] = append(toggles[k], toggle{p, rv.Float() + 1})
-			}
-		}
-	}
-	names := []string{"", "a", "b", "2"}
+	kinds, toggles, defFlat, leafPaths := c13Setup(t, factories)
 	nInvalid := c13InvalidNested(out, factories)
 	for _, c := range vCases(vN(300)) {
 		if c < nInvalid {
 			continue // case indices 0..nInvalid-1 are the corpus of invalid nested values
 		}
-		rnd := vRand(c)
-		nsec := 0
-		secret := func() string {
-			nsec++
-			return fmt.Sprintf("Zs3cr3t-%d-%d-Qx", c, nsec)
-		}
-		var insts []*c13Inst
-		sameType := false
-		for _, k := range kinds {
-			st := strings.SplitN(k, "/", 2)
-			max := 3
-			if c13Catalog[k] == nil && len(toggles[k]) == 0 {
-				max = 1
-			}
-			n := rnd.IntN(max + 1)
-			if (k == "receivers/otlp" || k == "exporters/otlphttp") && n == 0 {
-				n = 1 + rnd.IntN(2)
-			}
-			perm := rnd.Perm(len(names))
-			if n > 1 {
-				sameType = true
-			}
-			for i := 0; i < n; i++ {
-				in := &c13Inst{section: st[0], typ: st[1], name: names[perm[i]], written: map[string]any{}}
-				seen := map[string]bool{}
-				if ts := toggles[k]; len(ts) > 0 {
-					for j, m := 0, rnd.IntN(5); j < m; j++ {
-						tg := ts[rnd.IntN(len(ts))]
-						if seen[tg.path] {
-							continue
-						}
-						seen[tg.path] = true
-						c13SetPath(in.written, tg.path, tg.v)
-						in.leaves = append(in.leaves, c13WLeaf{path: tg.path, v: tg.v})
-					}
-				}
-				for _, sp := range c13Catalog[k] {
-					if rnd.IntN(2) == 0 {
-						continue
-					}
-					switch sp.kind {
-					case "endpoint":
-						v := fmt.Sprintf("host-%d-%d:%d", c, len(insts), 1000+rnd.IntN(9000))
-						c13SetPath(in.written, sp.path, v)
-						in.leaves = append(in.leaves, c13WLeaf{path: sp.path, v: v})
-					case "enum":
-						v := sp.vals[rnd.IntN(len(sp.vals))]
-						c13SetPath(in.written, sp.path, v)
-						in.leaves = append(in.leaves, c13WLeaf{path: sp.path, v: v, enum: true})
-					case "secret":
-						v := secret()
-						c13SetPath(in.written, sp.path, v)
-						in.leaves = append(in.leaves, c13WLeaf{path: sp.path, v: v, secret: true})
-					case "secretmap":
-						for _, hk := range []string{"authorization", "x-api-key"}[:1+rnd.IntN(2)] {
-							v := secret()
-							c13SetPath(in.written, sp.path+"::"+hk, v)
-							in.leaves = append(in.leaves, c13WLeaf{path: sp.path + "::" + hk, v: v, secret: true})
-						}
-					}
-				}
-				insts = append(insts, in)
-			}
-		}
+		insts, nsec, sameType := c13GenInsts(vRand(c), c, kinds, toggles)
 		// the collector configuration
 		root := map[string]any{}
 		var firstRecv, firstExp string
@@ -643,6 +528,36 @@ func c13Faith(out *vOut, in *c13Inst, got map[string]any, def map[string]any, le
 			show[vHex(p)] = render(p, false)
 		}
 	}
+	// positions rewritten by the components' own Unmarshal fix-ups (modelled: Hook.aliasIfUnset / dropUnset)
+	written := map[string]bool{}
+	for _, l := range in.leaves {
+		written[l.path] = true
+	}
+	for _, l := range in.leaves {
+		if strings.HasSuffix(l.path, "::blocking") {
+			dst := strings.TrimSuffix(l.path, "blocking") + "block_on_overflow"
+			if !written[dst] && leaves[dst] {
+				show[vHex(dst)] = render(dst, false)
+			}
+		}
+	}
+	if in.section+"/"+in.typ == "receivers/otlp" {
+		for _, proto := range []string{"grpc", "http"} {
+			set := false
+			for _, l := range in.leaves {
+				if strings.HasPrefix(l.path, "protocols::"+proto+"::") {
+					set = true
+				}
+			}
+			if q := "protocols::" + proto + "::endpoint"; !set && leaves[q] {
+				r := render(q, false)
+				if v, ok := got["protocols::"+proto]; ok && v == nil {
+					r = "none" // the whole protocol is nil
+				}
+				show[vHex(q)] = r
+			}
+		}
+	}
 	var qs []string
 	for k := range show {
 		qs = append(qs, k)
@@ -657,3 +572,126 @@ func c13Faith(out *vOut, in *c13Inst, got map[string]any, def map[string]any, le
 }
 
 var c13AbsentIDLoad = c13Hash("<absent>")
+
+type c13Toggle struct {
+	path string
+	v    any
+}
+
+// c13Setup: per component type the toggleable settings (booleans and numbers of the factory default's
+// effective configuration), the flattened effective default and the schema leaf positions.
+func c13Setup(t *testing.T, factories otelcol.Factories) (kinds []string, toggles map[string][]c13Toggle, defFlat map[string]map[string]any, leafPaths map[string]map[string]bool) {
+	// toggleable settings of every type: booleans and numbers of the factory default's effective configuration
+	toggles = map[string][]c13Toggle{}
+	defFlat = map[string]map[string]any{}    // effective factory default, flattened
+	leafPaths = map[string]map[string]bool{} // schema leaf positions
+	kinds = make([]string, 0, len(c13Catalog))
+	for k := range c13Catalog {
+		kinds = append(kinds, k)
+	}
+	sort.Strings(kinds)
+	for _, k := range kinds {
+		st := strings.SplitN(k, "/", 2)
+		f := c13Factory(factories, st[0], st[1])
+		if f == nil {
+			t.Fatalf("no factory for %s", k)
+		}
+		eff, err := c13EffectiveOf(f.CreateDefaultConfig())
+		if err != nil {
+			continue
+		}
+		flat := map[string]any{}
+		c13Flatten(eff, "", flat)
+		defFlat[k] = flat
+		leafPaths[k] = map[string]bool{}
+		c13LeafPaths(reflect.TypeOf(f.CreateDefaultConfig()), nil, 0, leafPaths[k])
+		paths := make([]string, 0, len(flat))
+		for p := range flat {
+			paths = append(paths, p)
+		}
+		sort.Strings(paths)
+		for _, p := range paths {
+			rv := reflect.ValueOf(flat[p])
+			if !rv.IsValid() {
+				continue
+			}
+			switch rv.Kind() {
+			case reflect.Bool:
+				toggles[k] = append(toggles[k], c13Toggle{p, !rv.Bool()})
+			case reflect.Int, reflect.Int32, reflect.Int64:
+				toggles[k] = append(toggles[k], c13Toggle{p, rv.Int() + 1})
+			case reflect.Uint, reflect.Uint32, reflect.Uint64:
+				toggles[k] = append(toggles[k], c13Toggle{p, rv.Uint() + 1})
+			case reflect.Float64, reflect.Float32:
+				toggles[k] = append(toggles[k], c13Toggle{p, rv.Float() + 1})
+			}
+		}
+	}
+	return kinds, toggles, defFlat, leafPaths
+}
+
+// c13GenInsts: 0-3 instances per component type, each writing its own random subset of settings.
+func c13GenInsts(rnd *rand.Rand, c int, kinds []string, toggles map[string][]c13Toggle) (insts []*c13Inst, nsec int, sameType bool) {
+	names := []string{"", "a", "b", "2"}
+	secret := func() string {
+		nsec++
+		return fmt.Sprintf("Zs3cr3t-%d-%d-Qx", c, nsec)
+	}
+	for _, k := range kinds {
+		st := strings.SplitN(k, "/", 2)
+		max := 3
+		if c13Catalog[k] == nil && len(toggles[k]) == 0 {
+			max = 1
+		}
+		n := rnd.IntN(max + 1)
+		if (k == "receivers/otlp" || k == "exporters/otlphttp") && n == 0 {
+			n = 1 + rnd.IntN(2)
+		}
+		perm := rnd.Perm(len(names))
+		if n > 1 {
+			sameType = true
+		}
+		for i := 0; i < n; i++ {
+			in := &c13Inst{section: st[0], typ: st[1], name: names[perm[i]], written: map[string]any{}}
+			seen := map[string]bool{}
+			if ts := toggles[k]; len(ts) > 0 {
+				for j, m := 0, rnd.IntN(5); j < m; j++ {
+					tg := ts[rnd.IntN(len(ts))]
+					if seen[tg.path] {
+						continue
+					}
+					seen[tg.path] = true
+					c13SetPath(in.written, tg.path, tg.v)
+					in.leaves = append(in.leaves, c13WLeaf{path: tg.path, v: tg.v})
+				}
+			}
+			for _, sp := range c13Catalog[k] {
+				if rnd.IntN(2) == 0 {
+					continue
+				}
+				switch sp.kind {
+				case "endpoint":
+					v := fmt.Sprintf("host-%d-%d:%d", c, len(insts), 1000+rnd.IntN(9000))
+					c13SetPath(in.written, sp.path, v)
+					in.leaves = append(in.leaves, c13WLeaf{path: sp.path, v: v})
+				case "enum":
+					v := sp.vals[rnd.IntN(len(sp.vals))]
+					c13SetPath(in.written, sp.path, v)
+					in.leaves = append(in.leaves, c13WLeaf{path: sp.path, v: v, enum: true})
+				case "secret":
+					v := secret()
+					c13SetPath(in.written, sp.path, v)
+					in.leaves = append(in.leaves, c13WLeaf{path: sp.path, v: v, secret: true})
+				case "secretmap":
+					for _, hk := range []string{"authorization", "x-api-key"}[:1+rnd.IntN(2)] {
+						v := secret()
+						c13SetPath(in.written, sp.path+"::"+hk, v)
+						in.leaves = append(in.leaves, c13WLeaf{path: sp.path + "::" + hk, v: v, secret: true})
+					}
+				}
+			}
+			insts = append(insts, in)
+		}
+	}
+	return insts, nsec, sameType
+}
